@@ -12,6 +12,8 @@ pub(crate) struct Uq<T> {
     pub v: T,
 }
 pub(crate) use crate::region::verif_kani_lorawan_device_region_top as rt;
+/// re-exported for the front-end harnesses (`mac::session` is private to `mac`)
+pub(crate) use crate::mac::session::verif_kani_lorawan_device_session_rx::{any_session as any_session_pub, session_same as session_same_pub};
 
 pub(crate) fn any_dr() -> DR {
     DR::from(kani::any::<u8>())
